@@ -13,3 +13,47 @@ def run(ctx):
     Q.rule_upper_quoted(ctx, "R7")
     Q.rule_must_decode(ctx, "R8", m, params, sets)
     Q.rule_c1(ctx, "R9", sets)
+    # what safe unquoting decodes must survive the cleaning pass of the url functions built on it
+    ctx.rule("R10", "the cleaning pattern of the url functions deletes control characters only: a printable character that safe unquoting decodes (e.g. %E2%80%8B) must not be deleted by the next cleaning pass (regex language = C0 / C1 controls)")
+    from .c02 import control_chars_language
+    control_chars_language(ctx, "R10")
+    raw_quote_callers(ctx, "R11")
+
+
+RAW_QUOTE_OWNERS = {
+    # module -> why its functions may escape text with the plain escaper (urllib's quote re-escapes the '%' of an existing escape)
+    "ural.quote": "the safe quoting functions: one decoded character (whitespace / C1 control), or the pieces between existing escapes",
+    "ural.format_url": "builders: keys and values are raw text, not url text",
+    "ural.utils": "the Python 2 / 3 wrapper itself and the add_query_argument builder (raw name and value)",
+}
+
+
+def raw_quote_callers(ctx, rule):
+    ctx.rule(rule, "who may call the plain escaper (ownership): urllib's quote -- directly, through ural.utils.quote or an alias of either -- is called only inside ural.quote (the safe quoting functions), ural.format_url and ural.utils (the builders of raw text, the wrapper); any other function of the package that quotes url text must go through safely_quote, which keeps existing %XX escapes as they are ('%20' must not become '%2520')")
+    import ast
+    repo = ctx.repo
+    names = {"urllib.parse.quote", "urllib.parse.quote_plus", "urllib.quote", "ural.utils.quote", "ural.utils.unshadowed_quote", "ural.utils.original_quote"}
+    n = 0
+    for mname in sorted(repo.all_module_names()):
+        try:
+            m = repo.mod(mname)
+        except Exception:
+            continue
+        for fn in ast.walk(m.tree):
+            if not isinstance(fn, (ast.FunctionDef, ast.Lambda)):
+                continue
+            for c in ast.walk(fn):
+                if not isinstance(c, ast.Call):
+                    continue
+                q = repo.resolve_call(m, c.func)
+                if q is None and isinstance(c.func, ast.Name):
+                    ref = repo.resolve(m, c.func.id)
+                    q = ref.qualname if ref is not None else None
+                if q not in names:
+                    continue
+                owner = "%s.%s" % (m.name, getattr(fn, "name", "<lambda>"))
+                n += 1
+                ctx.ob(rule, "caller/%s" % owner, m.name in RAW_QUOTE_OWNERS,
+                       "%s calls the plain escaper %s on url text: the '%%' of an escape that safe unquoting kept ('%%20', '%%25', undecodable bytes) is escaped again; url text is quoted with safely_quote" % (owner, q),
+                       m.site(c), witness="#!/search/caf%C3%A9%20noir", sample="%s -> %s" % (owner, q))
+    ctx.require_instances(rule, n, 4, "call sites of the plain escaper")
